@@ -20,12 +20,12 @@ TECH = ("loop-nest summarisation of the numba/cupy kernels compared with eq. pol
 SITE_COUNT = lambda ps: {f"{ps[0]}.shape[0]", f"{ps[1]}.shape[0]", f"{ps[2]}.shape[0]"}
 
 
-def kernel_spec(T, ps):
-    """A[v0,v1] = sum_v2 J[v2,v1] * area[v2] / |ec[v0] - site[v2]|   (eq. polyak, first line; prefactor is in `area`)."""
+def kernel_spec(T, ps, k="v1", j="v2"):
+    """A[v0,k] = sum_j J[j,k] * area[j] / |ec[v0] - site[j]|   (eq. polyak, first line; prefactor is in `area`)."""
     J, area, sites, ec, out = ps
-    dx = T.real(f"{ec}[v0,0]") - T.real(f"{sites}[v2,0]")
-    dy = T.real(f"{ec}[v0,1]") - T.real(f"{sites}[v2,1]")
-    return T.real(f"{J}[v2,v1]") * T.real(f"{area}[v2]") / T.sqrt_of(dx * dx + dy * dy)
+    dx = T.real(f"{ec}[v0,0]") - T.real(f"{sites}[{j},0]")
+    dy = T.real(f"{ec}[v0,1]") - T.real(f"{sites}[{j},1]")
+    return T.real(f"{J}[{j},{k}]") * T.real(f"{area}[{j}]") / T.sqrt_of(dx * dx + dy * dy)
 
 
 def kernel_obligations(ctx, fi, rule, label):
@@ -38,21 +38,26 @@ def kernel_obligations(ctx, fi, rule, label):
         sm = summarise(T, fn)
     except KernelError as e:
         raise AnalysisError(f"{fi.fq}: {e}")
-    spec = kernel_spec(T, ps)
-    ok = len(sm.stores) == 1
-    st = sm.stores[0] if sm.stores else None
-    det = {}
+    from ..kernel import output_coverage
+    form = output_coverage(sm, fn, ps)
+    ok = form is not None
+    det = {"form": form, "stores": [f"{st.array}{list(st.index)}" for st in sm.stores], "problems": sm.problems}
     if ok:
-        val = st.value
-        ok = st.array == ps[4] and st.index == ("v0", "v1")
-        ext = {l.canon: l.extent for l in st.loops}
-        inner = [l for l in sm.loops if l.canon == "v2"]
-        want_inner = T.app(f"sum[v2<{inner[0].extent}]", [spec]) if inner else None
-        ok = ok and want_inner is not None and val == want_inner
-        ok = ok and ext.get("v0") == f"{ps[3]}.shape[0]" and ext.get("v1") == f"{ps[0]}.shape[1]" \
-            and inner[0].extent in SITE_COUNT(ps) and not sm.problems
-        det = {"store": f"{st.array}{list(st.index)} = {str(val)[:300]}", "extents": ext,
-               "inner_extent": inner[0].extent if inner else None, "problems": sm.problems}
+        # "loop": out[v0, v1] = sum_v2 ...; "unrolled": out[v0, 0] and out[v0, 1], each summed over its own site loop (v1)
+        jname = "v2" if form == "loop" else "v1"
+        for st in sm.stores:
+            # the site loop that feeds this store: the last one that closed before it
+            cands = [l for l in sm.loops if l.canon == jname and l.node.lineno <= st.node.lineno]
+            if not cands:
+                ok = False
+                break
+            lj = cands[-1]
+            spec = kernel_spec(T, ps, k=st.index[1], j=jname)
+            want = T.app(f"sum[{jname}<{lj.extent}]", [spec])
+            ok = ok and st.value == want and lj.extent in SITE_COUNT(ps)
+            det[f"{st.array}{list(st.index)}"] = str(st.value)[:300]
+            det.setdefault("inner_extents", []).append(lj.extent)
+        ok = ok and not sm.problems
     ctx.ob(rule, f"{label}: A[i,k] = sum_j J[j,k] area[j] / |r_edge_i - r_site_j| over all i, k, j", ok, detail=det,
            where=fi.fq, construct=f"{label} kernel body", loc=loc(fi, fn),
            message=f"{label} kernel does not compute the documented sum: {det}",
